@@ -586,6 +586,8 @@ class Interp:
     def binop(self, op, a, b):
         if isinstance(a, (list, tuple)) and isinstance(b, (list, tuple)) and isinstance(op, ast.Add):
             return list(a) + list(b)
+        if a is SHAPE or b is SHAPE:
+            return SHAPE
         if isinstance(a, (list, tuple)) and isinstance(op, ast.Mult) and isinstance(b, Poly) and b.is_const():
             return a * int(b.const_value())
         if isinstance(b, (list, tuple)) and isinstance(op, ast.Mult) and isinstance(a, Poly) and a.is_const():
@@ -856,6 +858,11 @@ class Interp:
                     sub.env[p] = a
                 return sub.eval(clo.node.body)
             return self.call_function(clo.node, args, kwargs)
+        if isinstance(f, ast.Attribute) and isinstance(f.value, ast.Name) and f.value.id == "self" and isinstance(self.selfattrs.get(self._mangle(name)), (PyFunc, Closure)):
+            callee = self.selfattrs[self._mangle(name)]
+            xa = [self.eval(a) for a in e.args]
+            xk = {k.arg: self.eval(k.value) for k in e.keywords if k.arg}
+            return callee.f(xa, xk) if isinstance(callee, PyFunc) else self.call_function(callee.node, xa, xk)
         if isinstance(f, ast.Attribute) and isinstance(f.value, ast.Name) and f.value.id == "self" and name in self.methods:
             args = [self.eval(a) for a in e.args]
             kwargs = {k.arg: self.eval(k.value) for k in e.keywords if k.arg}
@@ -907,11 +914,11 @@ class Interp:
             if isinstance(clo, Closure):
                 return self.call_function(clo.node, [], {})
             raise Undecided("conditional branches are not closures")
-        if name == "stack":
+        if name in ("stack", "concatenate"):
             v = ev(args[0])
             if isinstance(v, (list, tuple)):
                 return list(v)
-            raise Undecided("stack")
+            raise Undecided(name)
         if name == "sum":
             v = ev(args[0])
             if isinstance(v, (list, tuple)):
@@ -919,6 +926,8 @@ class Interp:
                 for x in v:
                     tot = tot + to_poly(x)
                 return tot
+            if isinstance(v, Poly) and "axis" in kw:
+                return fn("sum", v, to_poly(ev(kw["axis"])) if ev(kw["axis"]) is not None else Poly.atom("NONE"))
             raise Undecided("sum over a data axis")
         if name == "product" or name == "prod":
             v = ev(args[0])
@@ -927,6 +936,8 @@ class Interp:
                 for x in v:
                     tot = tot * to_poly(x)
                 return tot
+            if isinstance(v, Poly) and "axis" in kw:
+                return fn("product", v, to_poly(ev(kw["axis"])) if ev(kw["axis"]) is not None else Poly.atom("NONE"))
             raise Undecided("product over a data axis")
         if name == "einsum":
             spec = ev(args[0])
@@ -1059,11 +1070,19 @@ def einsum(spec, ops):
             explicit[L] = len(v)
             exp_letters.append(L)
             v = v[0]
-    # implicit letters that are contracted: a sum over a data axis -> undecided
+    # implicit letters that are contracted: a sum over a data axis. If the letter lives in ONE operand only it is a
+    # reduction of that operand alone (opaque atom); shared contracted data axes are outside the fragment.
     all_in = set("".join(subs))
-    for L in all_in - set(out):
+    ops = list(ops)
+    for L in sorted(all_in - set(out)):
         if L not in explicit:
-            raise Undecided(f"einsum contracts data axis '{L}'")
+            owners = [i for i, sub in enumerate(subs) if L in sub]
+            if len(owners) == 1 and not isinstance(ops[owners[0]], (list, tuple)):
+                i = owners[0]
+                ops[i] = fn("esum", to_poly(ops[i]), Poly.atom(f"axis_{subs[i].index(L)}"))
+                subs[i] = subs[i].replace(L, "")
+            else:
+                raise Undecided(f"einsum contracts data axis '{L}'")
     # a letter explicit in one operand must be explicit (or absent) in the others
     for sub, op in zip(subs, ops):
         d = depth(op)
